@@ -19,7 +19,8 @@
 From Coq Require Import ZArith NArith List Bool Lia.
 From Tinode Require Import Base.Util Pure.Acs Sys.Topic Sys.TopicTac Sys.TopicFrame Sys.TopicNum Sys.TopicNumThm Sys.TopicInst
   Sys.TopicCohC08 Sys.TopicCohC08Proofs Sys.TopicCohC08Step Sys.TopicCohC08Run Sys.TopicCohC08Query Sys.TopicCohC08Wit
-  Sys.TopicCohC08Reject Sys.TopicCohC08Ack Sys.TopicCohC08Wit2 Sys.TopicCohC08Keys Sys.TopicCohC08Bisim.
+  Sys.TopicCohC08Reject Sys.TopicCohC08Ack Sys.TopicCohC08Wit2 Sys.TopicCohC08Keys Sys.TopicCohC08Bisim
+  Sys.PermBranchC08c Sys.PermBranchC08cProofs Sys.PermAckFullC08c Sys.PermBranchC08cWit.
 Import ListNotations.
 Open Scope Z_scope.
 
@@ -106,6 +107,42 @@ Theorem c08_reject_no_change_partial : forall x o,
   err_reply (snd (step dr nr sm NoFault x o)) (op_sid o) ->
   unchanged x (fst (step dr nr sm NoFault x o)).
 Proof. exact (step_reject dr nr sm). Qed.
+(* ACKNOWLEDGED ACCESS MODE = STORED ACCESS MODE ("every acknowledged change to permissions is in the store
+   by the time it is acknowledged"), every branch of thisUserSub / anotherUserSub / replyOfflineTopicSetSub,
+   EVERY fault plan: whenever a {sub} or {set sub} request - own or about another user, attached or not, topic
+   loaded or not - is answered {ctrl 200 params.acs = want/given}, the reply goes to the requester and the live
+   stored subscription row of the user it is about (the named user, else the requester) holds exactly that want
+   and that given.  (An acknowledged request met no store error - step_ack_nofault_c08c - so the fault plan
+   does not matter; a fault inside an ownership acceptance, finding #9, produces no reply at all.) *)
+Theorem c08_acs_ack_is_stored : forall f x o sid named w g,
+  inv x -> known sm o -> is_perm_req_c08c o = true ->
+  In (sid, CtrlAcs 200 named w g) (snd (step dr nr sm f x o)) ->
+  sid = op_sid o /\ stored_acs_c08c (st (fst (step dr nr sm f x o))) (acs_subject_c08c sm o named) w g.
+Proof. exact (step_acs_ack_stored_full_c08c dr nr sm). Qed.
+
+(* SELF-RAISE: an attached approver (A in grant and in the requested mode) or holder of an O grant who asks,
+   for himself, beyond his grant - the branches PB_t_raise_admin / PB_t_raise_owner / PB_t_accept_raise of the
+   extracted classifier perm_branch_c08c - is acknowledged with a grant DIFFERENT from the old one, and the
+   raised grant is in the store. *)
+Theorem c08_self_raise_setsub_stored : forall x sd target mode c p0,
+  inv x -> sess_uid sm sd <> 0%N -> ca x = Some c -> attached c sd = true ->
+  alookup (sess_uid sm sd) (c_users c) = Some p0 ->
+  is_raise_c08c (perm_branch_c08c sm x (OSetSub sd target mode)) = true ->
+  exists w g,
+    In (sd, CtrlAcs 200 0%N w g) (snd (step dr nr sm NoFault x (OSetSub sd target mode))) /\
+    g <> p_given p0 /\
+    stored_acs_c08c (st (fst (step dr nr sm NoFault x (OSetSub sd target mode)))) (sess_uid sm sd) w g.
+Proof. exact (raise_setsub_stored_c08c dr nr sm). Qed.
+
+Theorem c08_self_raise_sub_stored : forall x sd want bkg c p0,
+  inv x -> sess_uid sm sd <> 0%N -> ca x = Some c -> attached c sd = false ->
+  alookup (sess_uid sm sd) (c_users c) = Some p0 ->
+  is_raise_c08c (perm_branch_c08c sm x (OSub sd want bkg)) = true ->
+  exists w g,
+    In (sd, CtrlAcs 200 0%N w g) (snd (step dr nr sm NoFault x (OSub sd want bkg))) /\
+    g <> p_given p0 /\
+    stored_acs_c08c (st (fst (step dr nr sm NoFault x (OSub sd want bkg)))) (sess_uid sm sd) w g.
+Proof. exact (raise_sub_stored_c08c dr nr sm). Qed.
 End C08.
 
 (* ------------------------------------------------------------------ *)
@@ -169,6 +206,9 @@ Print Assumptions c08_query_agree.
 Print Assumptions c08_unload_invisible.
 Print Assumptions c08_ack_implies_stored_partial.
 Print Assumptions c08_reject_no_change_partial.
+Print Assumptions c08_acs_ack_is_stored.
+Print Assumptions c08_self_raise_setsub_stored.
+Print Assumptions c08_self_raise_sub_stored.
 Print Assumptions c08_reject_no_change_refuted.
 Print Assumptions c08_reject_banned_needed.
 Print Assumptions c08_reject_fault_publish_needed.
@@ -196,3 +236,11 @@ Example c08_ex_safe :
   safe_run del_ranges_i norm_ranges_i wit_sm (mkState (wit_store 47 47) None 0) h /\
   option_map c_lastid (ca (fst (wit_run 47 47 h))) = Some 1.
 Proof. cbv zeta. split; [safe_tac|vm_compute; reflexivity]. Qed.
+
+(* the hypotheses of the self-raise theorems are satisfiable: user 2 (JRWPA/JRWPA) attached through session 2
+   asks JRWPAS for himself; the classifier says PB_t_raise_admin, the reply is acs=JRWPAS/JRWPAS, the row holds it *)
+Example c08_ex_self_raise :
+  perm_branch_c08c wit_sm wit_admin_state_c08c (OSetSub 2 0 m_JRWPAS_c08c) = PB_t_raise_admin /\
+  snd (step_i wit_sm NoFault wit_admin_state_c08c (OSetSub 2 0 m_JRWPAS_c08c)) = [(2%N, CtrlAcs 200 0 63 63)] /\
+  perm_branch_c08c wit_sm wit_owner_state_c08c (OSetSub 2 0 m_FULL_c08c) = PB_t_accept_raise.
+Proof. split; [exact wit_admin_branch_c08c|]. split; [exact (proj1 wit_admin_result_c08c)|exact wit_owner_branch_c08c]. Qed.
